@@ -460,12 +460,22 @@ def overtaken_case(acc, seed, tag):
                 acc.inconc("%s: the first group message was never encrypted" % tag)
                 return
         W.threaded_sends = True
-        k = r.choice([1, 1, 2, 4])
-        with inject.PauseAt(("yowsup/layers/axolotl/layer_send.py",), k, "verif-app-sender-0", hold=r.choice([1.0, 1.5]), funcs=("sendEncEntities",)) as pa:
+        wide = r.random() < 0.35
+        if wide:
+            # anywhere on the sender thread's way through the send layer (any statement of layer_send.py / layer_base.py)
+            k, funcs = r.randint(1, 45), None
+            acc.count("overtaken_wide_placements")
+        else:
+            k, funcs = r.choice([1, 1, 2, 4]), ("sendEncEntities",)
+        with inject.PauseAt(("yowsup/layers/axolotl/layer_send.py", "yowsup/layers/axolotl/layer_base.py") if wide else ("yowsup/layers/axolotl/layer_send.py",),
+                            k, "verif-app-sender-0", hold=r.choice([1.0, 1.5]), funcs=funcs) as pa:
             W.do_action(send(S, gj, r.choice(KINDS)))
-            if not pa.at_point.wait(10):
-                acc.inconc("%s: the sender thread never reached the place between encryption and hand-over" % tag)
-                return
+            if not pa.at_point.wait(3 if wide else 10):
+                if not wide:
+                    acc.inconc("%s: the sender thread never reached the place between encryption and hand-over" % tag)
+                    return
+                # (the thread made fewer than k steps in these files: an unplaced threaded send)
+                acc.count("overtaken_wide_not_reached")
             acc.count("overtaken_sender_held")
             w["held_at"] = pa.where
             n0 = len([1 for ph, t in W.wire_receipts if t[1].get("type") == "retry"])
@@ -509,7 +519,7 @@ def shards(tier, seed, nworkers):
     q = tier == "quick"
     nsh = 6 if q else nworkers
     return [{"kind": "runs", "shard": i, "n": (420 if q else 25000) // nsh} for i in range(nsh)] + \
-           [{"kind": "overtaken", "shard": i, "n": (6 if q else 160) // nsh} for i in range(nsh)]
+           [{"kind": "overtaken", "shard": i, "n": (12 if q else 320) // nsh} for i in range(nsh)]
 
 
 def run(spec, acc):
